@@ -54,10 +54,20 @@ class SwitchExperimenter(experimenter.Experimenter):
       if trial_copy.final_measurement is None:
         continue
 
-      val = trial_copy.final_measurement.metrics[
-          self._exptr_objective_names[exptr_index]
-      ]
-      trial.complete(vz.Measurement(metrics={self._metric_name: val}))
+      metrics = {}
+      objective_name = self._exptr_objective_names[exptr_index]
+      # Infeasible trials may come back without the objective.
+      if (
+          not trial_copy.infeasible
+          or objective_name in trial_copy.final_measurement.metrics
+      ):
+        metrics[self._metric_name] = trial_copy.final_measurement.metrics[
+            objective_name
+        ]
+      trial.complete(
+          vz.Measurement(metrics=metrics),
+          infeasibility_reason=trial_copy.infeasibility_reason,
+      )
 
   def problem_statement(self) -> vz.ProblemStatement:
     problem_statement = vz.ProblemStatement()
